@@ -14,12 +14,12 @@ import (
 )
 
 func TestZZBoundedC11(t *testing.T) {
-	fmt.Println("BOUNDED-BOUND: regexes FLAG ^? ATOM{1,3} $? over 13 atoms and 5 flag prefixes, operators =~ and !~, candidate values of length 0..3 over {a,b,c,A,newline,x}")
-	atoms := []string{"a", "b", "ab", "[ab]", "[a-c]", "(a|b)", "[ac]", "(ab|c)", "a?", "a*", ".", "(a$|b)", "b{2}"}
+	fmt.Println("BOUNDED-BOUND: regexes FLAG ^? ATOM{1,3} $? over 14 atoms and 5 flag prefixes, operators =~ and !~, candidate values of length 0..3 over {a,b,c,A,newline,x,e-acute}")
+	atoms := []string{"a", "b", "ab", "[ab]", "[a-c]", "(a|b)", "[ac]", "(ab|c)", "a?", "a*", ".", "(a$|b)", "b{2}", "[a\u00e9]"}
 	flags := []string{"", "(?i)", "(?m)", "(?s)", "(?U)"}
 	heads := []string{"^", "", "^^"}
 	tails := []string{"$", "", "$$"}
-	alphabet := []string{"a", "b", "c", "A", "\n", "x"}
+	alphabet := []string{"a", "b", "c", "A", "\n", "x", "\u00e9"}
 	var values []string
 	var gen func(cur string, n int)
 	gen = func(cur string, n int) {
